@@ -88,7 +88,7 @@ theorem envelope_reset_same_input (inp : EnvInput) (hp : inp.Pos) (m0 : Option (
     (ops : List Op) (hops : ∀ o ∈ ops, o.Valid) (q : Op) (hq : q.Valid) :
     let s := run inp (init m0) ops
     (step inp (step inp s .reset).1 q).2 = (step inp s q).2 :=
-  step_after_reset (run_inv hp (inv_init inp m0) hops) hp q hq
+  step_after_reset (run_inv hp (inv_init inp m0) hops) (run_hinv inp hp m0 ops hops).2.2 hp q hq
 
 /-- non-vacuity: a singular input with a narrow envelope, a history that fills the three buffers,
     changes the regularisation and resets; the final `q_xx` is the fresh one -/
@@ -110,10 +110,24 @@ survives `reset` is state of the model: the key table `indbuf`, the three vector
 `tmpres` (`tmpresDim`), the stored list `min_x_list`. -/
 
 /-- **History freedom across inputs.**  After ANY history — queries, `min_x…`, `reset` with the same
-    or with other inputs — every query is answered as a brand-new object given the CURRENT input and
-    the stored regularisation list answers it.  In particular no vector cached from an earlier input is
-    ever read: `reset` erases the key table (the proof uses exactly that step, `inv_reset`). -/
+    or with other inputs of any size — every query is answered as a brand-new object answers it that is
+    given the CURRENT input and the configuration the CALLER left: `lastCfg m0 ops` is `none` (all
+    parameters: constructor default or the last `min_x()`) or the list of the last `min_x(n, list)`; nothing
+    the object materialised on the way enters.  No vector cached from an earlier input is ever read (`reset`
+    erases the key table, `inv_reset`), and the list 1..n that `solve_x` builds for the default configuration
+    is dropped by `reset` (repo 65eea33; `reset_md`, `eff_cfg`). -/
 theorem env_history_free_across_inputs (inp0 : EnvInput) (hp : inp0.Pos) (m0 : Option (List Nat))
+    (ops : List HOp) (hops : ∀ o ∈ ops, o.Valid) (op : Op) (hop : op.Valid) :
+    let h := hrun (hinit inp0 m0) ops
+    (hstep h (.q op)).2 = fresh h.inp (lastCfg m0 ops) op := by
+  intro h
+  have hi := hrun_inv (hinv_init hp m0) hops
+  rw [hstep_eq_fresh_cfg hi op hop, hrun_cfg (hinv_init hp m0) hops]
+  simp only [hinit, cfg_init]
+  rfl
+
+/-- … and, equivalently, as an object configured with the list it currently stores -/
+theorem env_history_free_across_inputs_stored (inp0 : EnvInput) (hp : inp0.Pos) (m0 : Option (List Nat))
     (ops : List HOp) (hops : ∀ o ∈ ops, o.Valid) (op : Op) (hop : op.Valid) :
     let h := hrun (hinit inp0 m0) ops
     (hstep h (.q op)).2 = fresh h.inp h.s.minx op :=
@@ -121,18 +135,19 @@ theorem env_history_free_across_inputs (inp0 : EnvInput) (hp : inp0.Pos) (m0 : O
 
 /-- the invariant along such histories: the single-input invariant for the current input (every live
     key's vector was computed from the CURRENT data set; `tmpres` has the current dimension whenever
-    `init_q_bb` is clear — its content is zeroed and refilled before every use) -/
+    `init_q_bb` is clear — its content is zeroed and refilled before every use), and a list marked
+    `min_x_default` is the list of all parameters of the CURRENT system -/
 theorem env_invariant_across_inputs (inp0 : EnvInput) (hp : inp0.Pos) (m0 : Option (List Nat))
     (ops : List HOp) (hops : ∀ o ∈ ops, o.Valid) :
     let h := hrun (hinit inp0 m0) ops
-    h.inp.Pos ∧ Inv h.inp h.s :=
+    h.inp.Pos ∧ Inv h.inp h.s ∧ MD h.inp h.s :=
   hrun_inv (hinv_init hp m0) hops
 
 /-- the same-input theorem is the special case without `resetNew` -/
 theorem envelope_history_free_is_corollary (inp : EnvInput) (hp : inp.Pos) (m0 : Option (List Nat))
     (ops : List Op) (hops : ∀ o ∈ ops, o.Valid) (op : Op) (hop : op.Valid) :
     (step inp (run inp (init m0) ops) op).2 = fresh inp (run inp (init m0) ops).minx op := by
-  have h := env_history_free_across_inputs inp hp m0 (ops.map .q)
+  have h := env_history_free_across_inputs_stored inp hp m0 (ops.map .q)
     (by intro o ho; obtain ⟨o', ho', rfl⟩ := List.mem_map.mp ho; exact hops o' ho') op hop
   simp only [hinit, hrun_q] at h
   exact h
@@ -186,18 +201,30 @@ example :
     ∧ (hstep (hrun (hinit a none) ops) (.q (.qxx 1 4))).2
         = .qxxSing (.trow 2 1 [1, 2, 3, 4]) (.trow 2 4 [1, 2, 3, 4]) := by decide
 
-/-- **Finding C04-env-allist-survives-reset (witness).**  The configuration "all parameters"
-    (`min_x_list == nullptr`) is replaced inside `solve_x()` by an explicit list 1..n of the THEN current
-    size, and `reset` keeps it: after `reset(larger system)` the object regularises over the first 3
-    unknowns only, a new object (list `none`) over all 5.  (History freedom above is therefore relative to
-    the STORED list.)  Replayed on the real code: corpus/C04/env-allist-survives-reset-{grow,shrink}.ops. -/
-theorem env_materialised_list_survives_reset :
+/-- **Regression of finding C04-env-allist-survives-reset (fixed in repo 65eea33).**  The configuration
+    "all parameters" (`min_x_list == nullptr`) is replaced inside `solve_x()` by an explicit list 1..n of the
+    THEN current size; `reset` now drops such a list: after `reset(larger system)` the stored list is `none`
+    again and `unknowns()` regularises over all 5 unknowns, as a new object does.  A list the caller gave
+    through `min_x(n, list)` survives `reset`.  Replays on the real code (must pass):
+    corpus/C04/env-allist-survives-reset-{grow,shrink}.ops. -/
+theorem env_default_configuration_follows_input :
     let a : EnvInput := { n := 3, nullity := 1, invp := fun i => i, inEnv := fun _ _ => true,
                           resolves := fun l => l ≠ [], qbbIn := fun _ _ => true, id := 1 }
     let b : EnvInput := { a with n := 5, id := 2 }
-    let h := hrun (hinit a none) [.q .unknowns, .resetNew b]
-    h.s.minx = some [1, 2, 3]
-    ∧ (hstep h (.q .unknowns)).2 = .x (some [1, 2, 3])
-    ∧ fresh b none .unknowns = .x (some [1, 2, 3, 4, 5]) := by decide
+    (hrun (hinit a none) [.q .unknowns]).s.minx = some [1, 2, 3]
+    ∧ (hrun (hinit a none) [.q .unknowns, .resetNew b]).s.minx = none
+    ∧ (hstep (hrun (hinit a none) [.q .unknowns, .resetNew b]) (.q .unknowns)).2 = .x (some [1, 2, 3, 4, 5])
+    ∧ fresh b none .unknowns = .x (some [1, 2, 3, 4, 5])
+    ∧ (hrun (hinit a none) [.q (.minx [1, 2]), .q .unknowns, .resetNew b]).s.minx = some [1, 2] := by decide
+
+/-- the pre-fix behaviour as a VARIANT (a `reset` that keeps the materialised list): the object regularises
+    over the first 3 unknowns of the 5-unknown system — not what a new object does -/
+example :
+    let a : EnvInput := { n := 3, nullity := 1, invp := fun i => i, inEnv := fun _ _ => true,
+                          resolves := fun l => l ≠ [], qbbIn := fun _ _ => true, id := 1 }
+    let b : EnvInput := { a with n := 5, id := 2 }
+    let keepList : EnvInput → EnvInput → EnvState → EnvState := fun _ _ s => { reset s with minx := s.minx, minxDef := s.minxDef }
+    (hstepWith keepList (hrunWith keepList (hinit a none) [.q .unknowns, .resetNew b]) (.q .unknowns)).2
+      = .x (some [1, 2, 3]) := by decide
 
 end Gama.Props.C04
